@@ -89,7 +89,13 @@ def run(ctx):
         if not good:
             ctx.violation('bytes after the declared message length change the result: "%s" vs "%s" with %d more bytes' % (a[:150], b[:150], len(s)),
                           {'lines': [lines[k], lines[N + k]], 'impl': [a, b]}, key='confine:' + c.fam)
-    common.run_cg(ctx, ('msg_handshake ', 'hs_'), common.proj_value)
+    def cg_class(c, r):
+        # rejection shapes of the statement that can be read off a corpus line: NewSessionTicket declared shorter than 4 bytes
+        t = c.line.split(' ')
+        if t[0] == 'hs_newsessionticket' and int(t[1]) < 4 and r.startswith('ok '):
+            return 'a NewSessionTicket shorter than 4 bytes must be rejected'
+        return None
+    common.run_cg(ctx, ('msg_handshake ', 'hs_'), common.proj_value, classify=cg_class)
     common.lean_failure_violation(ctx, ok)
     return ctx.finish(LEVEL,
         rule='all 17 handshake variants (16 type codes) as messages and through every public body parser, from the independent RFC encoder with boundary sizes (session id 0/1/32, extension block present/absent/empty, SSLv3 and draft-18 ServerHello, both CertificateRequest forms): exact values; suffixes; every length field set to {0,1,true-1,true+1,max} and truncations (differential); the property\'s rejection shapes (class: never a value); confinement pairs (same message with and without trailing bytes); distinct = (family, outcome shape)',
